@@ -769,6 +769,12 @@ func (e *Engine) MessageReceived(ctx context.Context, p peer.ID, m bsmsg.BitSwap
 	if len(overflow) != 0 {
 		log.Infow("handling wantlist overflow", "local", e.self, "from", p, "wantlistSize", len(wants), "overflowSize", len(overflow))
 		wants = e.handleOverflow(ctx, p, overflow, wants)
+		// handleOverflow may have evicted wants of this very message again
+		// (re-sent or just accepted ones); those must not be queued.
+		wants = slices.DeleteFunc(wants, func(entry bsmsg.Entry) bool {
+			_, ok := e.peerLedger.peers[p][entry.Cid]
+			return !ok
+		})
 	}
 
 	for _, entry := range cancels {
